@@ -36,7 +36,7 @@ ADAPTERS (where a component's interface does not fit; none of the component file
     normally — redoes the derivation with the same arguments (client random and cipher suite of the parser state,
     version stamped into `Tls.ver` by `feed`, same key log) and stores what `self.keys.update(keys)` stored;
     `feed` does the same for `set_initial_decryptor`. `Params.tlsInit` has them empty, so the Retry reset
-    (`self.keys = {}`) clears them with the rest. `Props.C02Pipeline.hp_matches_groups` ties the shadow to the booleans.
+    (`self.keys = {}`) clears them with the rest.
   * `CryptoStream.update` takes `raises : Bytes → Bool` (does `handle_record` raise on this message?) while
     `TlsMsgs.handleRecord` answers that together with the new parser state: `recordRaises` asks it on the initial
     state (the answer does not depend on the state: `Props.C02Pipeline.handleRecord_err_indep`).
